@@ -416,16 +416,16 @@ def defs(tree_node, tree_helpers):
                " (let v__out := (@nil (bool * bytes)) in\n %s)." % body)
     known = {}
 
-    def method(name, params, kind, rtype=None):
+    def method(name, params, kind, rtype=None, suffix=""):
         fn = meth[name]
         if [a.arg for a in fn.args.args] != ["self"] + [p for p, _ in params]:
             raise Unsupported("signature of %s" % name)
         t = Tr(fn, True, dict(known))
         t.rtype = rtype
         env = dict(params)
-        coqt = {"N": "N", "bytes": "bytes", "obytes_or_bytes": "option bytes"}
+        coqt = {"N": "N", "bytes": "bytes", "obytes_or_bytes": "option bytes", "oN": "option N"}
         ps = "".join(" (v_%s : %s)" % (p, coqt[ty]) for p, ty in params)
-        nm = name.strip("_")
+        nm = name.strip("_") + suffix
         if kind == "pure":
             t.pure = True
             body = t.block(list(fn.body), env, lambda env2: (_ for _ in ()).throw(Unsupported("%s falls off its end" % name)))
@@ -455,6 +455,9 @@ def defs(tree_node, tree_helpers):
     out.append("Definition py_node_set_default_data (nd : py_node) (v_stem : option bytes) : py_node :=\n %s." % body)
     known["__set_default_data"] = ("node", None)
     method("read", [("block", "N")], "io")
+    # the same method with an optional block (read(None) continues at the storage cursor): what read_left / read_right /
+    # read_child pass when the register holds a value below the first data block
+    method("read", [("block", "oN")], "io", suffix="_o")
     method("write", [], "io")
     return out
 
